@@ -553,6 +553,7 @@ type c18Node struct {
 	First  map[string]int
 	Probe  *c18Probe
 	Blocks *fakeBlocks
+	Env    *c18Blocks // the block subscriber handed to the factory (Blocks with switchable Subscribe / Unsubscribe failures)
 }
 
 // newC18Node builds a plugin through plugin.NewReportingPluginFactory, exactly
@@ -585,8 +586,11 @@ func newC18Node(t testing.TB, in c18Input) *c18Node {
 			}
 		}
 	}
+	blocks := &c18Blocks{fakeBlocks: n.Blocks}
+	blocks.failUnsub.Store(in.CloseFault == "unsubscribe")
+	n.Env = blocks
 	fac := plugin.NewReportingPluginFactory(
-		lp, ev, n.Blocks,
+		lp, ev, blocks,
 		&c18Recov{p: pr, work: in.Rounds, rng: NewRng(78)}, c18Builder{p: pr}, &c18Getter{p: pr},
 		&c18Pipeline{p: pr, shape: in.Shape, latency: time.Duration(in.LatencyNs), honorCtx: in.HonorCtx, ineligible: in.Ineligible},
 		rc, &recEncoder{}, tg, wg, &c18StateUpdater{p: pr}, log.New(&c18LogWriter{p: pr}, "", 0))
